@@ -331,7 +331,18 @@ func checkChunkFold(p *Program, r *Result) {
 	for _, fn := range sortedFuncs(writerScope(p)) {
 		for _, tf := range []string{"MessageStartTime", "MessageEndTime"} {
 			for _, st := range fieldStores(fn, "Statistics", tf) {
-				if !loadOfField(st.Val, "Chunk", tf) {
+				fromChunk := loadOfField(st.Val, "Chunk", tf)
+				if c, ok := stripConv(st.Val).(*ssa.Call); ok && !fromChunk {
+					// min/max(running, chunk time)
+					if b, ok := c.Call.Value.(*ssa.Builtin); ok && (b.Name() == "min" || b.Name() == "max") {
+						for _, a := range c.Call.Args {
+							if loadOfField(a, "Chunk", tf) {
+								fromChunk = true
+							}
+						}
+					}
+				}
+				if !fromChunk {
 					continue
 				}
 				n++
@@ -349,8 +360,16 @@ func checkChunkFold(p *Program, r *Result) {
 						}
 						onTrue := pr.Succs[0] == d
 						zero := func(v ssa.Value) bool { k, ok := v.(*ssa.Const); return ok && k.Value != nil && k.Value.String() == "0" }
-						chunkTime := func(v ssa.Value) bool {
-							return loadOfField(v, "Chunk", "MessageStartTime") || loadOfField(v, "Chunk", "MessageEndTime")
+						var chunkTime func(v ssa.Value) bool
+						chunkTime = func(v ssa.Value) bool {
+							if loadOfField(v, "Chunk", "MessageStartTime") || loadOfField(v, "Chunk", "MessageEndTime") {
+								return true
+							}
+							// start|end != 0: non-zero iff one of them is
+							if b, ok := v.(*ssa.BinOp); ok && b.Op == token.OR {
+								return chunkTime(b.X) && chunkTime(b.Y)
+							}
+							return false
 						}
 						if ((c.Op == token.NEQ && onTrue) || (c.Op == token.EQL && !onTrue)) && (chunkTime(c.X) && zero(c.Y) || chunkTime(c.Y) && zero(c.X)) {
 							hasMsgs = true
@@ -359,6 +378,10 @@ func checkChunkFold(p *Program, r *Result) {
 							hasMsgs = true
 						}
 						if ((c.Op == token.EQL && onTrue) || (c.Op == token.NEQ && !onTrue)) && (loadOfField(c.X, "Statistics", "MessageCount") && zero(c.Y) || loadOfField(c.Y, "Statistics", "MessageCount") && zero(c.X)) {
+							directOnly = true
+						}
+						// MessageCount > 0 failing, 0 < MessageCount failing
+						if !onTrue && ((c.Op == token.GTR && loadOfField(c.X, "Statistics", "MessageCount") && zero(c.Y)) || (c.Op == token.LSS && loadOfField(c.Y, "Statistics", "MessageCount") && zero(c.X))) {
 							directOnly = true
 						}
 					}
